@@ -169,13 +169,9 @@ HAND += [
       functions=["insim_pth::Pth::read", "binrw::helpers::count_with (profile: generic path)"])
     for k, v in (("neg1", "-1"), ("min", "i32::MIN"), ("max", "i32::MAX"), ("million", "1000000"))
 ] + [
-    H("c17_smx_image_0_0", "c17", "C17", unwind=34, cost=120, bounds="SMX image: 0 objects, 0 checkpoints, ASCII track name, other bytes symbolic (68 bytes)",
-      functions=["insim_smx::Smx::read", "insim_smx::Smx::write"]),
-    H("c17_smx_image_0_1", "c17", "C17", tier="thorough", unwind=34, cost=150, bounds="SMX image: 0 objects, 1 checkpoint (72 bytes)",
-      functions=["insim_smx::Smx::read", "insim_smx::Smx::write"]),
-    H("c17_smx_image_1_1", "c17", "C17", tier="thorough", unwind=34, cost=400, timeout_thorough=3600,
-      bounds="SMX image: 1 object with 1 point and 1 triangle, 1 checkpoint (120 bytes)",
-      functions=["insim_smx::Smx::read", "insim_smx::Smx::write"]),
+    H("c17_smx_write_layout", "c17", "C17", unwind=40, cost=120, timeout=900,
+      bounds="SMX value with 1 object (1 point, 1 triangle), 1 checkpoint, all numeric fields symbolic, 3-character ASCII track name: writer output against the documented layout",
+      functions=["insim_smx::Smx::write (BinWrite)", "insim_core::string::binrw_write_codepage_string::<32>"]),
 ]
 
 def _c11():
@@ -232,6 +228,8 @@ def _generated(include_unclosed=False):
     import json
     cs = json.load(open(CLOSING_SET))
     out = []
+    import re as _re
+    quick_kinds = {k.lower() for k in gen_packets.QUICK_KINDS}
     for h in hs:
         rec = cs.get(h.name)
         if not rec or rec["status"] == "inconclusive" or rec.get("cbmc_s") is None:
@@ -239,11 +237,28 @@ def _generated(include_unclosed=False):
         t = rec["cbmc_s"]
         if t > THOROUGH_MAX_S:
             continue
-        if h.tier == "quick" and t > QUICK_MAX_S:
-            h.tier = "thorough"
         h.cost = t
-        h.timeout = max(600, int(t * 4))
-        h.timeout_thorough = max(1200, int(t * 5))
+        h.timeout = max(600, int(t * 5))
+        h.timeout_thorough = max(1200, int(t * 6))
+        # tier by measured cost: the quick tier covers every kind whose basic configuration is cheap
+        n = h.name
+        kind = n.split("_")[1]
+        basic = not _re.search(r"_(t0|tf|n0|n2)(_|$)", n)
+        if n in ("c02_flag_bit_tables", "c02_enum_number_tables", "c03_mal_n1_encodable"):
+            tier = "quick"
+        elif n.startswith("c02_plc_car_bit_"):
+            tier = "quick" if n in ("c02_plc_car_bit_0", "c02_plc_car_bit_19") else "thorough"
+        elif n.startswith(("c01_", "c02_")):
+            tier = "quick" if basic and t <= 100 else "thorough"
+        elif n.startswith("c04_"):
+            tier = "quick" if basic and t <= 100 else "thorough"
+        elif n.endswith("_codec"):
+            tier = "quick" if kind in quick_kinds and t <= 100 else "thorough"
+        elif n.endswith("_reencode"):
+            tier = "quick" if basic and kind in quick_kinds and t <= 60 else "thorough"
+        else:  # c03_K_<cfg> writer-shape harnesses
+            tier = "quick" if basic and t <= 60 else "thorough"
+        h.tier = tier
         out.append(h)
     return out
 
